@@ -1,7 +1,7 @@
 """C06 - nothing is returned outside the valid range unsignalled (DESIGN 4/C06)."""
 import warnings
 
-from vf.symkit import PARAM, R, B, begin, finish, skip
+from vf.symkit import PARAM, REPLAY, R, B, begin, finish, skip
 from vf.stubs import thermo as _th  # noqa: F401  (imports pgradd outside tracing)
 from vf.stubs import lindict as _ld  # noqa: F401
 
@@ -34,7 +34,7 @@ ASSUMPTIONS = [
     'a correlation without Cp data has its T_ref inside its declared range (else the reference value at T_ref is silent)',
     'valid range has lo > 0 for the "finite inside" clause (T=0 divides by zero by definition of H/RT)',
 ]
-OUTSIDE = ['array-valued T', 'tables with more than 4 points and symbolic values', 'IEEE special values']
+OUTSIDE = ['array-valued T in the getters (check_range itself is decided for arrays of 2-3 symbolic temperatures)', 'tables with more than 4 points and symbolic values', 'IEEE special values']
 REALISED = []
 
 
@@ -255,6 +255,65 @@ def h_range_intersection(d: bool):
     return finish(ok, status)
 
 
+class _SymArray(object):
+    """a 1-D array of (symbolic) temperatures: what check_range needs from numpy (elementwise <, >; any/min/max in NpShim)"""
+
+    def __init__(self, xs):
+        self.xs = list(xs)
+
+    def __lt__(self, o):
+        return _SymArray([x < o for x in self.xs])
+
+    def __gt__(self, o):
+        return _SymArray([x > o for x in self.xs])
+
+    def __le__(self, o):
+        return _SymArray([x <= o for x in self.xs])
+
+    def __ge__(self, o):
+        return _SymArray([x >= o for x in self.xs])
+
+    def __iter__(self):
+        return iter(self.xs)
+
+    def __len__(self):
+        return len(self.xs)
+
+
+def h_oor_array(d: bool):
+    """
+    post: _[0]
+    """
+    begin()
+    from pgradd.Error import OutsideCorrelationError
+    from vf.stubs import thermo as th
+    m = th.install()
+    n = PARAM.get('n', 2)
+    lo, hi = R('lo'), R('hi')
+    if not (lo <= hi):
+        return skip()
+    Ts = [R('T%d' % i) for i in range(n)]
+    base = m['base'].ThermochemBase(range=(lo, hi))
+    if REPLAY is None:
+        arr = _SymArray(Ts)
+    else:
+        import numpy
+        arr = numpy.array(Ts)
+    status = 'accepted'
+    try:
+        base.check_range(arr)
+    except OutsideCorrelationError:
+        status = 'outside'
+    except Exception as e:
+        status = 'other:' + type(e).__name__
+    want_outside = False
+    for t in Ts:
+        if t < lo or t > hi:
+            want_outside = True
+    return finish((status == 'outside') == want_outside and not status.startswith('other'),
+                  'array of temperatures: %s although %s' % (status, 'one lies outside' if want_outside else 'all inside'))
+
+
 def obligations(tier, seed):
     q = tier == 'quick'
     to = 200 if q else 1500
@@ -271,6 +330,8 @@ def obligations(tier, seed):
                 continue        # closes in ~6 min: thorough tier
             obs.append(dict(name='oor_incomplete_n%d_%s' % (npts, g), func='h_oor_incomplete',
                             param=dict(npts=npts, getter=g), timeout=to))
+    for n in (2,) if q else (2, 3):
+        obs.append(dict(name='oor_array_n%d' % n, func='h_oor_array', param=dict(n=n), timeout=to))
     for n in (1, 2) if q else (1, 2, 3):
         for g in ('get_CpoR', 'get_HoRT', 'get_SoR'):
             obs.append(dict(name='range_intersection_n%d_%s' % (n, g), func='h_range_intersection',
